@@ -2,6 +2,7 @@ package yqlib
 
 import (
 	"container/list"
+	"strings"
 
 	yaml "gopkg.in/yaml.v3"
 )
@@ -482,3 +483,39 @@ func VerifC13InlineMerge() {
 	verifCover("C13/inline/end")
 }
 
+
+// VerifC13AliasOfSequence: an alias of a sequence reads as the sequence: indices, slices and splats taken through
+// `b: *s` give what they give on the anchored `a: &s [...]` itself (symbolic bounds), unexploded and exploded.
+func VerifC13AliasOfSequence() {
+	v1, v2, v3 := verifStrN("v1", 1, "03"), verifStrN("v2", 1, "03"), verifStrN("v3", 1, "03")
+	build := func() *CandidateNode {
+		sq := vSeq(vInt(v1), vInt(v2), vInt(v3))
+		sq.Anchor = "s"
+		return vDoc(vMap(vStr("a"), sq, vStr("b"), &yaml.Node{Kind: yaml.AliasNode, Value: "s", Alias: sq}, vStr("c"), vMap(vStr("d"), &yaml.Node{Kind: yaml.AliasNode, Value: "s", Alias: sq})))
+	}
+	paths := []string{"X[7770001]", "X[7770001:7770002]", "X[7770001:]", "X[:7770002]", "X[]", "X | .[7770001:7770002]", "X[7770001:7770002] | .[0]", "X[7770001:][0]"}
+	pi := verifChoice("path", len(paths))
+	if pi == 3 {
+		return // `.a[:2]` is not accepted by the parser (an error on both sides)
+	}
+	through := []string{".b", ".c.d"}[verifChoice("through", 2)]
+	i, j := verifIntRange("i", -3, 4), verifIntRange("j", -3, 4)
+	run := func(base string) (string, bool) {
+		e := vParse(strings.ReplaceAll(paths[pi], "X", base))
+		vSubst(e, "7770001", "!!int", verifItoa(int64(i)))
+		vSubst(e, "7770002", "!!int", verifItoa(int64(j)))
+		res, err := c03EvalReadOnly(e, build())
+		if err != nil {
+			return "error", false
+		}
+		return vDumpList(res), true
+	}
+	direct, ok1 := run(".a")
+	viaAlias, ok2 := run(through)
+	label := "path=" + paths[pi] + " through=" + through
+	verifAssert(ok1 == ok2, "C13/path-through-an-alias-of-a-sequence-fails-differently "+label)
+	if ok1 && ok2 {
+		verifAssert(verifEqStr(direct, viaAlias), "C13/path-through-an-alias-of-a-sequence-reads-something-else "+label)
+	}
+	verifCover("C13/alias-seq/end")
+}
